@@ -70,9 +70,11 @@ def main():
         info = {}
         if harness_ok and model_ok:
             info = fn(rep, a.tier, Rng(seed), broken=bool(breaks)) or {}
+        known_keys = {k[1] for k in known_findings()[0] if k[0] == prop}
         for b in breaks:
-            # a break with no concrete failing input found by the streams/search above
-            found = any(v["found_input"] for v in rep.violations)
+            # a break with no concrete failing input found by the streams/search above (a listed known finding is
+            # not such an input: it fails on the unchanged tree as well)
+            found = any(v["found_input"] and v["key"] not in known_keys for v in rep.violations)
             if not found:
                 rep.violation("proof-or-correspondence-break", b.what,
                               {"no_longer_checks": b.what, "detail": b.detail[-3000:]}, found_input=False)
